@@ -84,9 +84,9 @@ def _ab_job(job):
         k = apply_kernel(it, closure, g2, factory=nreg[0].factory.ref, options=options)
         nb_tab = kernel_table(k, n_axes).comps
     except RaisedInCode as e:
-        return {"job": job, "error": f"raised {e.exc_name}"}
+        return {"job": job, "error": f"raised {e.exc_name}", "module": nreg[0].factory.module.rel}
     except Unsupported as e:
-        return {"job": job, "error": str(e)}
+        return {"job": job, "error": str(e), "module": nreg[0].factory.module.rel}
     hs = grid._attrs["discretization"].items
     uniform = {h: hs[0] for h in hs[1:]} if "laplace" in name else {}
     diffs = []
@@ -425,7 +425,7 @@ def _prange_job(job):
         it, closure = run_factory(ix, reg.factory, grid, options, cfg)
         k = apply_kernel(it, closure, grid, factory=reg.factory.ref, options=options)
     except (Unsupported, RaisedInCode) as e:
-        return {"job": job, "error": str(e)}
+        return {"job": job, "error": str(e), "module": reg.factory.module.rel}
     problems = []
     pr = [lp for lp in k.loops if lp.kind == "prange"]
     funcs = sorted({lp.func for lp in pr})
@@ -547,6 +547,54 @@ def prange_shared_writes(ix):
                         if not uses_pv:
                             where = "a parameter" if base.id in params else "an array that lives outside the loop"
                             out.append((m.rel, f.qualname, n.lineno, f"`{ast.unparse(t)}` is stored inside `for {pv} in nb.prange(...)` but `{base.id}` is {where} and the index does not involve `{pv}`: all threads write the same cells (data race; the result depends on the schedule)"))
+                # scalars carried from one iteration to the next: a local name whose first occurrence in the body (in
+                # program order) is a read, and which the body also re-binds, holds the value of the *previous* iteration;
+                # numba privatises such scalars per thread without a warning (recognised reductions `x += ...` excepted)
+                first: dict[str, str] = {}
+                bound: dict[str, int] = {}
+                reduction_only: dict[str, bool] = {}
+
+                def occ(node):
+                    # evaluation order: value before targets
+                    if isinstance(node, ast.Assign):
+                        occ(node.value)
+                        for t_ in node.targets:
+                            occ(t_)
+                        return
+                    if isinstance(node, ast.AugAssign):
+                        if isinstance(node.target, ast.Name):
+                            first.setdefault(node.target.id, "aug")
+                            bound.setdefault(node.target.id, node.lineno)
+                            reduction_only[node.target.id] = reduction_only.get(node.target.id, True) and isinstance(node.op, (ast.Add, ast.Mult, ast.Sub))
+                            occ(node.value)
+                            return
+                        occ(node.value)
+                        occ(node.target)
+                        return
+                    if isinstance(node, ast.For):
+                        occ(node.iter)
+                        occ(node.target)
+                        for b_ in node.body + node.orelse:
+                            occ(b_)
+                        return
+                    if isinstance(node, ast.Name):
+                        if isinstance(node.ctx, ast.Load):
+                            first.setdefault(node.id, "load")
+                        else:
+                            first.setdefault(node.id, "store")
+                            bound.setdefault(node.id, node.lineno)
+                            reduction_only[node.id] = False
+                        return
+                    for ch in ast.iter_child_nodes(node):
+                        occ(ch)
+
+                for st in loop.body:
+                    occ(st)
+                for nm, kind in first.items():
+                    if nm == pv or nm not in bound:
+                        continue
+                    if kind == "load" and not reduction_only.get(nm, False):
+                        out.append((m.rel, f.qualname, bound[nm], f"`{nm}` is read in `for {pv} in nb.prange(...)` before the iteration assigns it and is re-bound at line {bound[nm]}: its value is carried over from the previous iteration, which does not exist under a parallel schedule (numba makes the scalar private per thread): the result depends on the schedule"))
     return out
 
 
@@ -744,9 +792,10 @@ def check(tier: str) -> Report:
         rep.violation("C03.prange-dependence", f"{rel}::{qn}::prange-shared-write", msg, line=line)
     rep.oblige("no store inside a prange loop goes to memory shared between iterations (syntax-level scan)", not racy, sorted(racy))
 
-    def demoted(err: str) -> bool:
-        """extraction failures inside a kernel already reported as racy are notes, not analysis errors"""
-        if any(r in err for r in racy):
+    def demoted(err: str, module: str | None = None) -> bool:
+        """extraction failures inside a kernel already reported as racy (or in the module of such a kernel, when the
+        failing extraction cannot name the function) are notes, not analysis errors"""
+        if any(r in err for r in racy) or (module is not None and any(r.split("::")[0] == module for r in racy)):
             rep.note(f"extraction skipped for a kernel already in violation: {err[:200]}")
             return True
         return False
@@ -786,7 +835,7 @@ def check(tier: str) -> Report:
         name, n_axes, options = res["job"]
         tag = f"scipy-vs-numba:{name}/{n_axes}:{c01._fmt(options)}"
         if "error" in res:
-            if demoted(res["error"]):
+            if demoted(res["error"], res.get("module")):
                 continue
             raise AnalysisError(f"{tag}: {res['error']}")
         rep.saw("sibling rows", tag)
@@ -847,7 +896,7 @@ def check(tier: str) -> Report:
         gcls, name, n_axes, options, extra = res["job"]
         tag = f"prange:{gcls}/{n_axes}:{name}:{c01._fmt(options)}"
         if "error" in res:
-            if demoted(res["error"]):
+            if demoted(res["error"], res.get("module")):
                 for rel_, qn_, line_ in sites:
                     if f"{rel_}::{qn_.split('#')[0]}" in racy:
                         analysed.add((rel_, line_))
@@ -882,7 +931,14 @@ def check(tier: str) -> Report:
     # ------------------------------------------------------------------ (b) sparse-matrix route
     from . import c18
 
-    c18.check_matrix_rows(rep, ix, rule_mismatch="C03.matrix-vs-stencil", rule_overwrite=None)
+    try:
+        c18.check_matrix_rows(rep, ix, rule_mismatch="C03.matrix-vs-stencil", rule_overwrite=None)
+    except AnalysisError as e:
+        # the matrix rows are compared with the numba Laplace kernels: if one of those is already reported as racy its
+        # extraction may fail on the unknown shape -- a note of that violation, not a second verdict
+        if not any("laplace" in r for r in racy):
+            raise
+        rep.note(f"matrix route skipped, a Laplace kernel is already in violation: {str(e)[:200]}")
     rep.note("(b) sparse-matrix route: rows of every _get_laplace_matrix* assembler == numba stencil with ghost cells eliminated (extraction shared with C18)")
     rep.assumptions += [
         "documented semantics of scipy.ndimage.correlate1d / laplace (boundary mode only touches the discarded outer layer)",
